@@ -27,7 +27,7 @@ use std::io::Write;
 use libfuzzer_sys::fuzz_target;
 use util::{Ctx, Tier};
 
-struct State { ctx: Ctx, driver: String, ncases: u64, inputs: u64, short_inputs: u64, lib_panics: u64 }
+struct State { ctx: Ctx, driver: String, ncases: u64, inputs: u64, short_inputs: u64, lib_panics: u64, overflow_checks: bool }
 
 static mut STATE: Option<State> = None;
 
@@ -54,7 +54,9 @@ fn init() -> State {
     ctx.counters.clear();
     ctx.count("model_selftest_comparisons", 0);
     unsafe { libc::atexit(at_exit); }
-    State { ctx, driver, ncases, inputs: 0, short_inputs: 0, lib_panics: 0 }
+    // Measured now: the exit handler runs when thread-local storage is already gone, and the measurement panics on purpose.
+    let overflow_checks = util::overflow_checks_on();
+    State { ctx, driver, ncases, inputs: 0, short_inputs: 0, lib_panics: 0, overflow_checks }
 }
 
 extern "C" fn at_exit() {
@@ -65,7 +67,7 @@ extern "C" fn at_exit() {
     st.ctx.counters.insert("max:fuzz.cases_in_part".to_string(), st.ncases);
     st.ctx.counters.insert("fuzz.library_panics_outside_monitored_calls".to_string(), st.lib_panics);
     let build = format!("{{\"debug_assertions\":{},\"overflow_checks\":{},\"bmi2\":{},\"miri\":false,\"probes\":{},\"bounds\":{},\"fuzz\":true}}",
-        cfg!(debug_assertions), util::overflow_checks_on(), cfg!(target_feature = "bmi2"), cfg!(feature = "probes"), cfg!(feature = "bounds"));
+        cfg!(debug_assertions), st.overflow_checks, cfg!(target_feature = "bmi2"), cfg!(feature = "probes"), cfg!(feature = "bounds"));
     let extra = vec![("build".to_string(), build)];
     let out = std::io::stdout();
     let mut out = out.lock();
